@@ -241,6 +241,26 @@ def case_enum(ctx, case):
         r = outcome(lambda: d.build(unk))
         if r != ("exc", "MappingError"):
             ctx.violation("enum-build-accepts-unknown-label", "Enum.build(%r) -> %r, expected MappingError" % (unk, r), dict(case, built=unk))
+    # a label obtained from this Enum (parse result / attribute) handed to another Enum over the same field whose numbering
+    # differs and which lacks one label: a label is a name, the other table decides the number
+    names = list(l2v)
+    other = [(n, l2v[names[(i + 1) % len(names)]]) for i, n in enumerate(names)][:max(1, len(names) - 1)] if len(names) > 1 else [("zz" + names[0], l2v[names[0]])]
+    d2 = mk(["Enum", case["sub"], other])
+    o2v = dict(other)
+    for n, v in labels:
+        objs = [getattr(d, n)]
+        pb = outcome(lambda: sub.build(v))
+        if pb[0] == "ok":
+            pr = outcome(lambda: d.parse(pb[1]))
+            if pr[0] == "ok" and isinstance(pr[1], str):
+                objs.append(pr[1])
+        for obj in objs:
+            ctx.ev()
+            want = outcome(lambda: sub.build(o2v[str(obj)])) if str(obj) in o2v else ("exc", "MappingError")
+            got = outcome(lambda: d2.build(obj))
+            if got != want:
+                ctx.violation("enum-label-from-another-enum", "label %r (from an Enum where it is %d) built by an Enum with table %r -> %r, expected %r" % (str(obj), int(obj), other, got, want), dict(case, built=str(obj)))
+                break
     ctx.count("enum_instances")
     if mapped and unmapped:
         ctx.nontrivial("enum", case)
